@@ -85,7 +85,7 @@ suppressed.
 |----|-----------|--------|-------------|
 ''' + "\n".join(rows) + '''
 
-Found *after* the design was written (not in section 3): **F01c** (kaldi_shift, shift 1, even
+Found *after* the design was written (not in section 3): **F14c** and **F19a** (see lesson xxiv below; found when round 7 of the seeding made me widen two generator ranges), **F01c** (kaldi_shift, shift 1, even
 length: `compute_chunk` emitted frame 0 one sample early - found by the exhaustive
 composition sub-space), **F09c** (PyTorch STFT padding could not reflect more than the signal
 length - found by the thorough tier of C09), **F11a** (`wds_read_signal` returning an
@@ -142,7 +142,7 @@ runs the check through `VERIF_REPO`, expects exit 1 and removes the copy.
 
 ### 7.5 Sensitivity: breaking changes seeded by independent sub-agents (`seeded/<name>/`)
 
-Six rounds of twenty fresh sub-agents (one per property and round) were given only the
+Seven rounds of twenty fresh sub-agents (one per property and round) were given only the
 property text and a scratch git worktree under /tmp - nothing from /verif; in the later
 rounds also the one-line summaries of the earlier rounds' changes with the instruction to find
 something of a different kind - and asked for up to two plausible changes that break the
@@ -152,7 +152,7 @@ all 752 baseline tests pass with the change) and are kept with `patch.diff`, `de
 `meta.json`. ''' + str(total - missed) + ''' were caught by the quick tier as it stood when they arrived; **''' + str(missed) + ''' were
 missed and led to the strengthenings listed below**, after which all ''' + str(total) + ''' are caught by the
 quick tier of their own property (`tools/mutants.py --seeded`). Names `Cxx_n` are round 1,
-`Cxx_bn` round 2, `Cxx_cn` round 3 (which also suggested kinds of change: cooperating sites, configuration constants, numeric edge values, argument types, duck-typed streams, shared state between objects, half-updated objects after an error), `Cxx_dn` round 4 (kinds suggested: data-dependent numeric paths such as overflow and non-finite values, sizes beyond an internal block length, optional header fields, file-name conventions, resource handling such as memory maps, interactions of three parameters). Four round-4 seeds (C09_d1, C10_d1, C17_d1, C17_d2) met a working tree that I had already strengthened on my own; the committed checks of that moment missed them and they are counted as misses. Seeds are also re-run at VERIF_SEED 2 and 3; two (C06_c2, C14_b1) were caught at seed 1 but not at seed 3, so the lowered-threshold configurations were made five times more frequent and more extreme (down to 1e-6) and signal lengths on the frame-count boundaries (whole and half multiples of the shift, +-1) are now generated on purpose. `Cxx_en` is round 5, whose brief asked the agent to list the phrases of the statement that no earlier change had touched and to break one of those (25 seeds, 11 first missed - the highest miss rate since round 1, so the steer worked). `Cxx_fn` is round 6 (28 seeds, 11 first missed): the brief asked for cooperating edits, reordered operations, 'equivalent' library calls that differ on ties / empty input, text handling, path forms, aliased results.
+`Cxx_bn` round 2, `Cxx_cn` round 3 (which also suggested kinds of change: cooperating sites, configuration constants, numeric edge values, argument types, duck-typed streams, shared state between objects, half-updated objects after an error), `Cxx_dn` round 4 (kinds suggested: data-dependent numeric paths such as overflow and non-finite values, sizes beyond an internal block length, optional header fields, file-name conventions, resource handling such as memory maps, interactions of three parameters). Four round-4 seeds (C09_d1, C10_d1, C17_d1, C17_d2) met a working tree that I had already strengthened on my own; the committed checks of that moment missed them and they are counted as misses. Seeds are also re-run at VERIF_SEED 2 and 3; two (C06_c2, C14_b1) were caught at seed 1 but not at seed 3, so the lowered-threshold configurations were made five times more frequent and more extreme (down to 1e-6) and signal lengths on the frame-count boundaries (whole and half multiples of the shift, +-1) are now generated on purpose. `Cxx_en` is round 5, whose brief asked the agent to list the phrases of the statement that no earlier change had touched and to break one of those (25 seeds, 11 first missed - the highest miss rate since round 1, so the steer worked). `Cxx_fn` is round 6 (28 seeds, 11 first missed): the brief asked for cooperating edits, reordered operations, 'equivalent' library calls that differ on ties / empty input, text handling, path forms, aliased results. `Cxx_gn` is round 7 (28 seeds, 10 first missed), whose single theme was the *range* of what a statement quantifies over: unusual but valid dtypes, axis positions, counts, rates, filter orders, file types.
 
 | seed | change | first quick run | strengthening |
 |------|--------|-----------------|---------------|
@@ -204,6 +204,16 @@ padding (C12), statistics written by another program (C16), non-native byte orde
 option value (C11); (xxiii) a seed caught at VERIF_SEED 1 but missed at 2 or 3 is a weak catch: six such seeds led to
 explicit generators (round-vertex linear banks, Bark banks with 20+ filters, tie lengths for even and odd multiples,
 per-frame tolerances in C14, fragile widths) instead of hoping for the draw.
+From round 7: (xxiv) **the range of every quantified dimension**: frame shifts above the frame length (C02, C04, C14),
+hundreds of filters at 96 kHz (C02 default length), 300 utterances (C10), multi-megabyte and 64-channel files (C12), the
+other mu-law file type AU1 (C13), longdouble / float16 / unsigned features (C16, C18), all-digit archive keys (C17),
+narrow NumPy integer scalars as arguments (C19). Widening two of these ranges made the checks report **two more genuine
+defects of the unmodified library** (F14c: the torch STFT module raised where compute_full returns an empty matrix;
+F19a: OctaveScaling computed 2 ** scale in the argument's integer type), both repaired by one-line `fix:` commits; a
+third observation - compute_full itself rejects most signals when kaldi_shift is combined with a shift above the
+length - is outside every statement's reach (C01 restricts itself to shift <= length, C02/C14 are judged without
+kaldi_shift there) and is recorded here only. (xxv) After a `fix:` commit the seeded patches are re-applied to the new
+tree; one (C19_1) touched the repaired line and was rebased (both versions are kept).
 '''
 p = os.path.join(H, "DESIGN.md")
 s = open(p).read()
